@@ -200,7 +200,7 @@ func c17bRunMode(t *testing.T, p c17bPlan, mode string) (res vfResult) {
 		// quiet: let drains end and a few probe rounds pass
 		time.Sleep(time.Second)
 		synctest.Wait()
-		raw, err := os.ReadFile(r.statePath)
+		raw, err := os.ReadFile(vfPathOf(r))
 		if err != nil {
 			res.failf("no-state-file", "%v", err)
 			return
